@@ -451,7 +451,7 @@ class Tree:
                             tg.start_soon(self.run_steps, path, f"{phase}#{i}", sub)
                 elif k == "svc":
                     await self._start_service(path, phase, st)
-                elif k == "svc-ta-raise":
+                elif k in ("svc-ta-raise", "svc-ta-partial"):
                     label = st[1]
                     stop_ev = anyio.Event()
 
@@ -471,6 +471,16 @@ class Tree:
                         await anyio.lowlevel.checkpoint()
                         raise ConnectionError("teardown action failed after it had told the task to stop")
 
+                    if k == "svc-ta-partial":
+                        # the "given callable" is a functools.partial around an instance of a callable class (no __qualname__ anywhere)
+                        import functools
+
+                        class Stopper:
+                            def __call__(self, label: str, stop_ev: Any) -> None:
+                                env.log("svc-action", label)
+                                stop_ev.set()
+
+                        action = functools.partial(Stopper(), label, stop_ev)  # type: ignore[assignment]
                     await ac.start_service_task(service_ta, label.replace(":", "_"), teardown_action=action)
                     env.log("svc-started", label)
                 elif k == "svc-hs":
